@@ -269,7 +269,7 @@ def run(chk):
     else:
         mcs = [("qa", {}), ("qb", {}), ("qclone", {}), ("qw1", {}), ("qframes", {}),
                ("t1", {}), ("t2", {}), ("t3", {}), ("t4", {}), ("tclone", {}), ("tw1", {}), ("tframes", {}),
-               ("sim", {"simulate": "num=4000", "seed": chk.seed, "depth": 4})]
+               ("sim", {"simulate": "num=1500", "seed": chk.seed, "depth": 4})]
         n_random, h2c_n = 2000, 80
     stats = {"by_kind": {}, "calls": 0, "abs_observed": 0, "lines": 0, "programmes": 0, "critical_pairs": {}}
 
